@@ -8,6 +8,7 @@
 mod api;
 mod c06;
 mod c07;
+mod c08;
 mod c12;
 mod c14;
 mod c13;
@@ -22,6 +23,38 @@ fn profile() -> &'static str {
         "dbg"
     } else {
         "release"
+    }
+}
+
+/// run the same check in the dbg build (debug assertions + overflow checks) and merge its summary
+pub fn run_child_profile(run: &Run, id: &str) {
+    if profile() != "release" {
+        return; // we are the child
+    }
+    let bin = match std::env::var("SM9MC_DBG_BIN") {
+        Ok(b) => b,
+        Err(_) => {
+            run.machinery_error("SM9MC_DBG_BIN is not set: the dbg-profile half of this check did not run (use ./check)".into());
+            return;
+        }
+    };
+    let out = std::process::Command::new(&bin)
+        .arg(id)
+        .arg(run.tier.name())
+        .arg("--child")
+        .env("VERIF_SEED", run.seed.to_string())
+        .stderr(std::process::Stdio::inherit())
+        .output();
+    match out {
+        Ok(o) => {
+            let txt = String::from_utf8_lossy(&o.stdout);
+            let last = txt.lines().rev().find(|l| l.starts_with('{'));
+            match last.and_then(|l| serde_json::from_str::<Value>(l).ok()) {
+                Some(v) if o.status.success() => run.merge_child("dbg", &v),
+                _ => run.machinery_error(format!("dbg child of {} failed: status {:?}, stdout tail: {}", id, o.status.code(), mccore::truncate(&txt, 400))),
+            }
+        }
+        Err(e) => run.machinery_error(format!("cannot start {}: {}", bin, e)),
     }
 }
 
@@ -45,6 +78,8 @@ fn table(id: &str) -> Option<(RunFn, MetaFn)> {
         "C04" => (grp::c04_run, grp::c04_meta),
         "C05" => (grp::c05_run, grp::c05_meta),
         "C06" => (c06::run, c06::meta),
+        "C08" => (c08::c08_run, c08::c08_meta),
+        "C09" => (c08::c09_run, c08::c09_meta),
         "C10" => (grp::c10_run, grp::c10_meta),
         "C15" => (grp::c15_run, grp::c15_meta),
         "C07" => (c07::run, c07::meta),
@@ -60,6 +95,7 @@ fn replay_table(op: &str) -> Option<ReplayFn> {
         "c04" | "c05" | "c10" | "c15" => grp::replay,
         "c06" => c06::replay,
         "c07" => c07::replay,
+        "c08" | "c09" => c08::replay,
         "c12" => c12::replay,
         "c13" => c13::replay,
         "c14" => c14::replay,
